@@ -32,6 +32,9 @@ def parseSigners (l : String) : Option (List Signer) :=
 def parseBase (s : String) : Option Base :=
   match cut s ":" with
   | ("pw", some pw) => some (.password pw)
+  | ("pwcb", some "!") => some (.failing "password")      -- PasswordCallback returning an error
+  | ("pwcb", some pw) => some (.password pw)              -- PasswordCallback returning this password
+  | ("pkcb", some "!") => some (.failing "publickey")     -- PublicKeysCallback returning an error
   | ("kbd", some "a") => some (.kbd .answerAll)
   | ("kbd", some "w") => some (.kbd .wrongCount)
   | ("kbd", some "f") => some (.kbd .fail)
@@ -97,6 +100,7 @@ def parseCred (s : String) : Option Cred :=
   match cut s ":" with
   | ("pw", some pw) => some (.password pw)
   | ("kbdr", some a) => some (.kbd a)
+  | ("gss", some a) => some (.gss a)
   | ("pk", some l) => (parseSigners l).map Cred.publickey
   | ("pkcb", some l) => ((l.splitOn "|").mapM parseSigners).map Cred.publickeyCb
   | _ => none
@@ -109,8 +113,10 @@ def handleReal (o : Op) : String :=
     | some creds =>
       let chain := chain.splitOn ","
       let serverAlgs := if algs == "-" then XC.C32.defaultPubKeyAuthAlgos else algs.splitOn ","
-      if compatible chain creds authKey serverAlgs then s!"client=ok server=ok:{chain.length - 1}"
-      else "client=fail server=fail"
+      -- the server's BannerCallback message reaches the client's BannerCallback with the first auth response
+      let ban := if o.get? "ban" == some "1" then "1" else "0"
+      if compatible chain creds authKey serverAlgs then s!"client=ok server=ok:{chain.length - 1} banner={ban}"
+      else s!"client=fail server=fail banner={ban}"
     | none => "bad-op"
   | _, _, _, _ => "bad-op"
 
